@@ -47,7 +47,8 @@ class Outcome:
     exc      exception *factory* (callable -> exception) raised after `delay`, or None
     confirm  "sync": L_DATA.con delivered inside send_cemi before it returns,
              float d: delivered d virtual seconds after send_cemi returned,
-             None: never (the CEMI handler's 3 s confirmation timeout runs out)
+             None: never (the CEMI handler's 3 s confirmation timeout runs out),
+             list of those: several copies (duplicates, copies after the timeout)
     """
 
     kind: str = "ok"
@@ -100,6 +101,8 @@ class FakeInterface:
         # observers: fn(handoff) called when a hand-off starts (bus model, monitors)
         self.on_handoff: list[Callable[[Handoff], None]] = []
         self.on_handoff_end: list[Callable[[Handoff], None]] = []
+        # chronological: ("start"|"end", hand-off index, vtime) and ("con", index of the hand-off it belongs to, vtime)
+        self.timeline: list[tuple[str, int | None, float]] = []
 
     # -- what XKNX.start()/stop() call ---------------------------------------
     async def start(self) -> None:
@@ -122,10 +125,18 @@ class FakeInterface:
             return self.script[index]
         return OK
 
-    def confirm(self, cemi: CEMIFrame) -> None:
+    def confirm(self, cemi: CEMIFrame, index: int | None = None) -> None:
         """Deliver the L_DATA.con for `cemi` through the real CEMI handler."""
+        self.timeline.append(("con", index, asyncio.get_running_loop().time()))
         con = CEMIFrame(code=CEMIMessageCode.L_DATA_CON, data=cemi.data)
         self.xknx.cemi_handler.handle_cemi_frame(con)
+
+    def confirm_last(self) -> bool:
+        """An unsolicited / repeated L_DATA.con for the most recent hand-off (if any)."""
+        if not self.handoffs:
+            return False
+        self.confirm(self.handoffs[-1].cemi, self.handoffs[-1].index)
+        return True
 
     async def send_cemi(self, cemi: CEMIFrame) -> None:
         loop = asyncio.get_running_loop()
@@ -147,6 +158,7 @@ class FakeInterface:
             state_at_start=self.xknx.connection_manager.state,
         )
         self.handoffs.append(ho)
+        self.timeline.append(("start", index, ho.t_start))
         self.active += 1
         self.max_active = max(self.max_active, self.active)
         try:
@@ -159,15 +171,18 @@ class FakeInterface:
                 await asyncio.sleep(outcome.delay)
             if outcome.exc is not None:
                 raise outcome.exc()
-            if outcome.confirm == "sync":
-                self.confirm(cemi)
-            elif outcome.confirm is not None:
-                loop.call_later(float(outcome.confirm), self.confirm, cemi)
+            copies = outcome.confirm if isinstance(outcome.confirm, (list, tuple)) else [outcome.confirm]
+            for c in copies:
+                if c == "sync":
+                    self.confirm(cemi, index)
+                elif c is not None:
+                    loop.call_later(float(c), self.confirm, cemi, index)
         except BaseException as exc:
             ho.raised = type(exc).__name__
             raise
         finally:
             ho.t_end = loop.time()
+            self.timeline.append(("end", index, ho.t_end))
             self.active -= 1
             for fn in list(self.on_handoff_end):
                 fn(ho)
